@@ -164,7 +164,7 @@ def record_and_validate(res, exe, wd, cases, prop):
 
     def rec(i):
         cp = os.path.join(wd, "cases_%d.ndjson" % i)
-        write_ndjson(cp, [{k: c[k] for k in ("id", "layout", "sched", "sleep", "faults")} for c in chunks[i]])
+        write_ndjson(cp, [{k: c[k] for k in ("id", "layout", "sched", "sleep", "faults", "mode", "noise") if k in c} for c in chunks[i]])
         tp = os.path.join(wd, "trace_%d.ndjson" % i)
         run_tmv(exe, ["loop", cp], stdout_path=tp)
         return tp
@@ -238,7 +238,7 @@ def digest(res, prop, cases, bad, kn):
         if mine:
             c = by_id.get(base_id(tid))
             if nrep < 10:
-                res.violation(",".join(mine), {"engine": "E2-loop-trace", "trace_id": tid, "layout": c["layout"], "sched": c["sched"], "sleep": c["sleep"], "fault": fault_of(tid),
+                res.violation(",".join(mine), {"engine": "E2-loop-trace", "trace_id": tid, "layout": c["layout"], "sched": c["sched"], "sleep": c["sleep"], "fault": fault_of(tid), "mode": c.get("mode", "scripted"), "noise": c.get("noise", 0),
                                                "how": "bin/check %s --replay <this file> runs the real loop under this schedule again and lets TLC validate the trace" % prop})
                 nrep += 1
             else:
@@ -265,6 +265,10 @@ def variants(prop, tier, cases):
     if prop == "C20":
         step = max(1, len(cases) // (400 if tier == "quick" else 6000))
         out = [dict(c, faults="all") for c in cases[::step]]
+    # the same runs one level lower: the REAL driver (mio, evdev-format reads, uinput-format writes) with the three system
+    # calls it makes answered by the same scripted environment; MSC/SYN framing, auto-repeat and unnamed-key noise rotate
+    stride = {"quick": 3, "thorough": 1}[tier]
+    out += [dict(c, id=c["id"] + "-sys%d" % (i % 3), mode="sys", noise=i % 3) for i, c in enumerate(out[::stride])]
     return out
 
 
@@ -275,7 +279,7 @@ def check(prop, tier, replay_file=None):
         wd = workdir("%s-%s" % (prop, "replay" if replay_file else tier))
         if replay_file:
             rp = json.load(open(replay_file))
-            cases = [{"id": "replay", "layout": rp["layout"], "sched": rp["sched"], "sleep": rp.get("sleep", "no"), "faults": rp.get("fault", 0)}]
+            cases = [{"id": "replay", "layout": rp["layout"], "sched": rp["sched"], "sleep": rp.get("sleep", "no"), "faults": rp.get("fault", 0), "mode": rp.get("mode", "scripted"), "noise": rp.get("noise", 0)}]
             nlines, counters, bad, kn = record_and_validate(res, exe, wd, cases, prop)
             for l in open(os.path.join(wd, "trace_0.ndjson")):
                 log("  " + l.strip()[:400])
